@@ -9,6 +9,7 @@ integer handles; bytes travel as lowercase hex (`-` for the empty string).
   td new|get|reset|rtr|next|hv|hvs|gv|val|seek|slot|err|se|rel h ...
   de new|reset|add|bytes h ...                  dd new|reset|hasnext|next h ...
   fe new|reset|add|from|marshal|msize|size h ...   fd new|get|unm|at|blk|size|width|rel h ...
+  cw new h | fill h b hex | write h b n | cut h      (snappy chunk writer + the caller's row buffers)
 -/
 import LinVerif.Util.Proto
 import LinVerif.Util.Map
@@ -16,6 +17,7 @@ import LinVerif.Model.Tsd
 import LinVerif.Model.DeltaPack
 import LinVerif.Model.FixedOffset
 import LinVerif.Model.Stream
+import LinVerif.Model.BufAlias
 
 namespace LinVerif.Driver.C14
 open LinVerif LinVerif.Bits LinVerif.Varint
@@ -69,6 +71,7 @@ structure St where
   sr : List (Nat × Stream.Reader) := []
   tsw : List (Nat × Stream.Writer) := []
   tsr : List (Nat × (Stream.TsdStreamReader × Nat)) := []
+  cw : List (Nat × BufAlias.World) := []
 
 def bad (st : St) : St × String := (st, "bad-op")
 
@@ -570,8 +573,48 @@ def stepTsr (st : St) (ws : List String) : St × String :=
         else bad st
   | _ => bad st
 
+/-- `cw new h | fill h b hex | write h b n | cut h`: the snappy chunk writer (`snappyWriter.Write/Close/Bytes`
+followed by `Uncompress`, which by the library contract returns the chunk's plain text) and the caller's row
+buffers. Whether `Write` copies or keeps the slice is what the SOURCE says now (`BufAlias.snappyWriteSem`); a
+sink without known semantics answers `bad-op`. -/
+def stepCw (st : St) (ws : List String) : St × String :=
+  match BufAlias.snappyWriteSem with
+  | none => bad st
+  | some sem =>
+    match ws with
+    | ["new", h] =>
+      match h.toNat? with
+      | some h => ({ st with cw := Map.upsert st.cw h {} }, "ok")
+      | none => bad st
+    | ["fill", h, b, d] =>
+      match h.toNat?, b.toNat?, unhex d with
+      | some h, some b, some d =>
+        match Map.lookup st.cw h with
+        | some w => ({ st with cw := Map.upsert st.cw h (w.fill b d) }, "ok")
+        | none => bad st
+      | _, _, _ => bad st
+    | ["write", h, b, n] =>
+      match h.toNat?, b.toNat?, n.toNat? with
+      | some h, some b, some n =>
+        match Map.lookup st.cw h with
+        | some w =>
+          match w.write sem b n with
+          | some w' => ({ st with cw := Map.upsert st.cw h w' }, s!"{n} nil")
+          | none => bad st
+        | none => bad st
+      | _, _, _ => bad st
+    | ["cut", h] =>
+      match h.toNat? with
+      | some h =>
+        match Map.lookup st.cw h with
+        | some w => ({ st with cw := Map.upsert st.cw h w.cut.2 }, hex w.cut.1)
+        | none => bad st
+      | none => bad st
+    | _ => bad st
+
 def step (st : St) (ws : List String) : St × String :=
   match ws with
+  | "cw" :: rest => stepCw st rest
   | "bw" :: rest => stepBw st rest
   | "br" :: rest => stepBr st rest
   | "xe" :: rest => stepXe st rest
